@@ -243,7 +243,7 @@ def c16(pid, tier, seed):
     q = tier == "quick"
     fams = [
         fam("tabs_single", conf="single", W=40, H=6, D=4 if q else 5, BarOps=("set_tab_width", "set_style", "set_message", "set_prefix", "finish_with_message", "tick"),
-            MsgShapes=("tab", "tt", "a"), Tpls=("TM", "KM", "PM"), TabWs=(8, 0, 4), Fins=("AndLeave",)),
+            MsgShapes=("tab", "tt", "a", "utab"), Tpls=("TM", "KM", "PM"), TabWs=(8, 0, 4), Fins=("AndLeave",)),
         fam("tabs_restyle", conf="single", W=40, H=6, D=4 if q else 5, BarOps=("set_tab_width", "restyle", "set_style", "set_message", "tick"),
             MsgShapes=("tab",), Tpls=("TM", "KC", "M"), TabWs=(8, 2), Fins=("AndLeave",)),
         # the texts given to the builder before / after the tab width (with_message, with_prefix, with_tab_width, with_style in every order)
@@ -266,6 +266,9 @@ def c19(pid, tier, seed):
     # 2-column glyphs on even widths (no glyph straddles the right edge): rows follow the columns, not the number of characters
     fams.append(fam("geo_wide_glyphs", conf="single", W=4, H=5, D=4, BarOps=("set_message", "println", "tick", "finish_and_clear"), MsgShapes=("wide3", "wide", "a"), TextShapes=("T",),
                     Tpls=("M", "MnC"), Base=0))
+    # a field padded with blanks beyond the terminal width: the blanks wrap and count like any other column
+    fams.append(fam("geo_padded", conf="single", W=3, H=6, D=4, BarOps=("set_message", "println", "tick", "finish_and_clear"), MsgShapes=("a", "W", "e"), TextShapes=("T",),
+                    Tpls=("MP",), Base=0))
     fams.append(fam("geo_multi", conf="multi", W=2, H=3, Multi=True, MaxBars=5, D=5 if q else 7, BarOps=("tick", "finish_and_clear", "mp_remove"), MpOps=("mp_println",),
                     TextShapes=("T",), Tpls=("M",), Fins=("AndLeave",), M0="id", shards=12))
     # set_move_cursor(true): no line is cleared, the frame is overwritten in place; with frames that keep their shape (here: wrapped lines of
@@ -508,7 +511,7 @@ def c05(pid, tier, seed):
     churn20 = churn20 if not q else churn20[::3]
     churn20.append([0] * 25 + [-1, 0, 0] * 30)     # a job that keeps creating and dropping short-lived bars while the bucket is empty
 
-    def hist(seq, R, kind, lit, length=1000000):
+    def hist(seq, R, kind, lit, length=1000000, samepos=False):
         if kind == "pos":
             sub = 250                                    # 1 ms / 4000
         elif lit:
@@ -540,6 +543,9 @@ def c05(pid, tier, seed):
                 ops.append({"op": "drop", "b": nb + 2, "dt": 0})
                 ops.append({"op": "drop", "b": nb + 1, "dt": 0})
                 nb += 2
+            elif samepos and len(ops) % 3 == 2:
+                # a request that sets the position to the value it already has is a redraw request like any other
+                ops.append(dict({"op": "set_position", "b": 1, "n": 0}, **tm))
             else:
                 ops.append(dict({"op": "inc" if kind == "pos" else "tick", "b": 1, "n": 1}, **tm))
         return {"cfg": cfg, "ops": ops}
@@ -562,6 +568,7 @@ def c05(pid, tier, seed):
     # a bar that is complete but not finished (position >= length from the start) is throttled like any other
     plan.append(("single_full_R20", lambda: [hist(s, 20, "single", False, length=0) for s in cover20[::4] + steady[:1]]))
     plan.append(("multi_full_R20", lambda: [hist(s, 20, "multi", False, length=0) for s in cover20[::6] + steady[:1]]))
+    plan.append(("single_samepos_R20", lambda: [hist(s, 20, "single", False, samepos=True) for s in cover20[::4] + steady[:1]]))
     plan.append(("posgate_full", lambda: [hist(s, 1, "pos", False, length=3) for s in cover10[::3] + steady[:1]]))
     # the limiter of the real console::Term target (TargetKind::Term), driven through a pseudo-terminal
     plan.append(("pty_R20", lambda: [hist(s, 20, "pty", False) for s in cover20[::3] + lifted20[::6] + steady[:1]]))
